@@ -77,7 +77,9 @@ def config_class(info, uv3):
     exp = (uv3 @ info['vects']) @ info['T'].T
     L = np.abs(exp).max()
     obl = max(abs(exp[0, 1]), abs(exp[0, 2]), abs(exp[1, 2])) > 1e-7 * L
-    anti = (info['mstr'], info['nstr']) not in GEN.CYCLIC
+    # the anticyclic assignments (x,z), (y,x), (z,y) were a separate class while defect A stood (cell turned
+    # 180 degrees about n); repaired in /repo 40086d3, so they are judged by the standard clauses now
+    anti = False
     return ('anticyclic' if anti else '') + ('+' if anti and obl else '') + ('oblique' if obl else '') or 'standard', exp
 
 
@@ -271,12 +273,12 @@ class Monitors:
         info = getattr(d, '_vf', None)
         msg = str(exc)
         out = dict(ok=False, exc=exc)
-        if info is not None and 'oblique' in info['cls'] and not isinstance(a.get('sizemults'), tuple):
-            rec.refusal(f'{kind}:oblique-class:{type(exc).__name__}')
-            out['why'] = 'oblique-class'
-        elif isinstance(a.get('sizemults'), tuple) and isinstance(exc, TypeError) and 'Invalid sizemults' not in msg:
+        if isinstance(a.get('sizemults'), tuple) and isinstance(exc, TypeError) and 'Invalid sizemults' not in msg:
             rec.fail('size multipliers given as a tuple (the documented type) are accepted', f'{kind}:sizemults-tuple:TypeError', exception=exc)
             out['why'] = 'tuple'
+        elif info is not None and 'oblique' in info['cls']:
+            rec.refusal(f'{kind}:oblique-class:{type(exc).__name__}')
+            out['why'] = 'oblique-class'
         elif isinstance(exc, ValueError) and 'slip plane' in msg and info is not None and req is not None:
             # documented refusal: accepted only if the oracle also finds atoms on the plane
             c = plane_gaps(d.rcell.atoms.pos @ info['n'] + req @ info['n'], info['W'])
@@ -803,7 +805,9 @@ def run(ctx):
         kw.update(ckw)
         kw.update(boundary_request(d, rng, bmode, eff, cell))
         kw['return_base_system'] = bool(i % 2)
+        kwrec = {k_: (list(v) if isinstance(v, list) else v) for k_, v in kw.items()}      # as handed over
         last = run_generator(ctx, mon, am, d, 'monopole', kw)
+        kw = kwrec
         ok = bool(last and last.get('ok'))
         rec.case(sig + (info['cls'],), nontrivial=ok and last['natoms'] > 40,
                  fp=fingerprint(struct, mn, sc['hkl'], sc['burgers'], sc['xi'], cell['vects'], Cd, {k_: np.asarray(v).tolist() if not isinstance(v, (str, bool)) else v for k_, v in kw.items()}))
@@ -861,7 +865,9 @@ def run(ctx):
         kw['return_base_system'] = bool(i % 2)
         if i % 7 == 3:
             kw['cutoff'] = float(rng.uniform(0.3, 0.6))
+        kwrec = {k_: (list(v) if isinstance(v, list) else v) for k_, v in kw.items()}      # periodicarray rewrites a list it is handed
         last = run_generator(ctx, mon, am, d, 'periodicarray', kw)
+        kw = kwrec
         ok = bool(last and last.get('ok'))
         rec.case(sig + (info['cls'],), nontrivial=ok and last['natoms'] > 40,
                  fp=fingerprint(struct, mn, sc['hkl'], sc['burgers'], sc['xi'], cell['vects'], Cd, {k_: np.asarray(v).tolist() if not isinstance(v, (str, bool)) else v for k_, v in kw.items()}))
